@@ -12,7 +12,7 @@ EXPLANATION = (
     "an element popped from the scored copies of the generator's list; (R3) every apply / toggle_turn on a borrowed "
     "board in the search call graph is undone on all paths (C04.R4 instances); the root tasks work on clones; "
     "(R4) both recursive calls of alpha_beta_minimax pass depth-1 and are guarded by the depth == 0 return. Legality "
-    "beyond 'one of the generator's moves for this position' (R5 imports the cache-key rules of C02/C05) and panics from lock poisoning are NOT decided.")
+    "beyond 'one of the generator's moves for this position' (R5 imports the cache-key rules of C02/C05) and panics from lock poisoning are NOT decided; (R6) no division by a possibly-zero value in the search call graph.")
 ASSUMPTIONS = [
     "rayon's par_iter().map().collect() yields one scored entry per candidate (so a non-empty candidate list gives a non-empty vector)",
     "rustc MIR construction and the chessfacts extractor are faithful",
@@ -241,7 +241,30 @@ def r5_candidates_are_current(ctx):
     ctx.floor('C07.R5-candidates-of-this-position', 'cache-key obligations imported', n, 20)
 
 
+def r6_no_arithmetic_panic(ctx):
+    """the search answers or returns a declared error: no division / remainder whose divisor can be zero on the way (rustc emits a
+    DivisionByZero / RemainderByZero assertion exactly when the divisor is not a non-zero constant)"""
+    rule = 'C07.R6-no-division-panic'
+    facts = ctx.facts
+    reach = facts.reachable_fns([SEARCH] + [c.name for c in facts.closures_of(SEARCH)])
+    bad = []
+    n = 0
+    for nme in sorted(reach):
+        f = facts.fns.get(nme)
+        if f is None or f.crate != 'chess':
+            continue
+        n += 1
+        for b in f.blocks:
+            t = b['term']
+            if t['k'] == 'assert' and (t['msg'].startswith('DivisionByZero') or t['msg'].startswith('RemainderByZero')):
+                bad.append((nme, t.get('span')))
+    ctx.ob(rule, SEARCH, 'no division or remainder by a value that can be zero in the search call graph', not bad, found=bad[:4], expected=[],
+           why='a search that panics (e.g. a statistic divided by a counter that is zero when every child came from the cache) does not answer with a legal move')
+    ctx.floor(rule, 'functions of the search call graph scanned', n, 10)
+
+
 def run(ctx):
+    r6_no_arithmetic_panic(ctx)
     r1_declared_outcomes(ctx)
     r2_no_fabrication(ctx)
     r3_neutrality(ctx)
